@@ -616,6 +616,7 @@ package cache
 
 //@ func (*Failover).refreshStale
 //@   props C03 C06 C18
+//@   replay failover
 //@   requires ctx != nil && f.backend != nil
 //@   requires [C02.refresh.prov.need] prov(bytes(key), value)
 //@   ensures [C02.refresh.write.prov] prov(bytes(key), arg("ReadWriter.Write", 1, 3))
